@@ -26,7 +26,7 @@ var pubsubOps = []string{"Publish", "CreateNode", "CreateNodeCfg", "SetConfig", 
 func pubsubCase(c *ctx, sub uint64, class string) {
 	r := c.r
 	g := &gen{r: common.NewRand(sub)}
-	op := pubsubOps[g.r.Intn(len(pubsubOps))]
+	op := pubsubOps[g.intn(len(pubsubOps))]
 	node, id := g.text(), g.opt()
 	line := fmt.Sprintf("val pubsub.%s %d 0", op, sub)
 	r.Line(line, "-")
@@ -56,7 +56,7 @@ func pubsubCase(c *ctx, sub uint64, class string) {
 		case "GetConfig":
 			_, _ = pubsub.GetConfig(ctx, rs.S, node)
 		case "Delete":
-			_ = pubsub.Delete(ctx, rs.S, node, id, g.r.Bool())
+			_ = pubsub.Delete(ctx, rs.S, node, id, g.boolean())
 		case "Fetch":
 			it := pubsub.Fetch(ctx, rs.S, pubsub.Query{Node: node, Item: id, MaxItems: g.u64()})
 			it.Next()
@@ -101,4 +101,8 @@ func pubsubCase(c *ctx, sub uint64, class string) {
 	}
 	_ = form.NS
 	_ = xmpp.Ready
+}
+
+func contextTimeout(d time.Duration) (context.Context, context.CancelFunc) {
+	return context.WithTimeout(context.Background(), d)
 }
